@@ -433,6 +433,7 @@ def judge(ctx, c, rep, stats):
                  text_reg, {f["name"]: [t[0] for t in f["timed"]] for f in c.feats}), no_input=True)
     # -- divisors (static): k of every  metrics[e][c]["time"] = X / k
     cfg_of = {f["name"]: f["config"] for f in c.feats}
+    reported = set()
     for a in rep["assigns"]:
         stats["divisors_checked"] += 1
         if a["k_text"] == "-":
@@ -441,11 +442,14 @@ def judge(ctx, c, rep, stats):
         if a["k_text"] != a["k_spec"]:
             shared = a["component"] in conflicts
             key = {"kind": "component-divisor", "observed": "text", "shared_name_conflict": shared, "code_model_agrees": a["k_text"] == a["k_code"]}
+            sig = (shared, key["code_model_agrees"])
+            if sig in reported:           # one report per kind and program; a known finding never hides another kind
+                continue
+            reported.add(sig)
             viol(key, "Einsum %s (configuration %s): time of %s divides by %s; frequency-or-bandwidth x instances of its level in that configuration is %s%s" % (
                 a["einsum"], cfg_of.get(a["einsum"]), a["component"], a["k_text"], a["k_spec"],
                 " (the name is declared in several configurations: %s)" % conflicts[a["component"]] if shared else ""),
                  {"assign": a})
-            break
     # -- executions
     f14_shaped = False
     for i, run in enumerate(rep["runs"]):
@@ -458,7 +462,7 @@ def judge(ctx, c, rep, stats):
         wrong = [t for t in run["ctimes"] if t["ok_spec"] != "T"]
         if wrong:
             t = wrong[0]
-            shared = t["component"] in conflicts
+            shared = all(x["component"] in conflicts for x in wrong)
             agrees = all(x["ok_code"] == "T" for x in wrong)
             f14_shaped = all(x["component"] in conflicts for x in wrong) and agrees
             viol({"kind": "component-divisor", "observed": "execution", "shared_name_conflict": shared, "code_model_agrees": agrees},
